@@ -433,7 +433,10 @@ func (r *renderer) stmt(s Stmt) {
 			r.inner(a)
 		}
 	case *ExprStmt:
-		r.inner(x.X)
+		// never wrapped: a statement that starts with '(' would continue an
+		// expression statement on the line before it (newlines are not
+		// significant inside expressions)
+		r.expr(x.X)
 	case *Return:
 		r.t("return")
 		if x.X != nil {
